@@ -416,7 +416,35 @@ def _decide(p, q, quats):
         return DIFFERENT
     if not quats and (_free_trig_ring(a, b) or _radical_trig_ring(a, b)):
         return DIFFERENT
+    if not quats and (_nonzero_radical_multiple(d)):
+        return DIFFERENT
     return UNKNOWN
+
+
+def _nonzero_radical_multiple(d):
+    """d = S * P with S one monomial of sqrt / fabs atoms (of polynomials in symbols) common to every term and P a non-zero
+    polynomial in symbols: S vanishes only on a null set and P is not the zero polynomial, so d is not identically 0 -
+    the two sides differ even though one of them (typically the constant 0) mentions none of the radicals."""
+    if not d.t:
+        return False
+    rad = None
+    for m in d.t:
+        r = []
+        for at, e in m:
+            if at.kind == "sym":
+                if e < 0:
+                    return False
+                continue
+            if at.kind in ("sqrt", "fabs") and e > 0 and isinstance(at.key[0], Poly) and all(x.kind == "sym" and ee > 0 for mm in at.key[0].t for x, ee in mm) and at.key[0].t:
+                r.append((at.id, e))
+                continue
+            return False
+        r = tuple(sorted(r))
+        if rad is None:
+            rad = r
+        elif rad != r:
+            return False
+    return True
 
 
 def _radical_trig_ring(a, b):
